@@ -50,6 +50,11 @@ def hash_sites(fx, crate='simfony'):
     return out
 
 
+def guards_table():
+    from .. import guards
+    return guards.load_table()
+
+
 def r_inventory(ctx, config='default'):
     rid = 'R19.1'
     ctx.rule(rid, 'every iteration over a HashMap/HashSet is a reviewed site whose sink does not feed the emitted program in iteration order')
@@ -182,6 +187,10 @@ def check(ctx):
     from . import c04
     c04.group_rule(ctx, 'R19.4', r'^debug::CallTracker::', 'marker id generation and tracking: full call traces (a marker depends only on the call counter)', 4)
     r_inventory(ctx)
+    # the reviewed loops over hash collections are order-insensitive as written (every element is treated alike, nothing stops
+    # early on a success): their bodies are compared with the reviewed rows
+    fns = sorted({p for p, c0, l0, i0 in hash_sites(ctx.facts()) if p in guards_table()})
+    c04.group_rule(ctx, 'R19.5', '^(' + '|'.join(re.escape(p) for p in fns) + ')$', 'functions that iterate a hash collection (the order of iteration must not matter)', 6)
     r_deny(ctx)
     r_cli(ctx)
     if ctx.tier == 'thorough':
